@@ -42,6 +42,12 @@ struct Cls {
 	template <class A> void Serialize(A& ar) { ar << KeyValue("a", a) << KeyValue("s", s, MinSize(0)) << KeyValue("v", v) << KeyValue("in", in) << KeyValue("arr", arr) << KeyValue("m", m) << KeyValue("o", o) << KeyValue("w", w) << KeyValue("p", p) << KeyValue("d", d); }
 	bool operator==(const Cls& x) const { return a == x.a && s == x.s && v == x.v && in == x.in && arr == x.arr && m == x.m && o == x.o && w == x.w && (!p == !x.p) && (!p || *p == *x.p) && d == x.d; }
 };
+// same document layout without the required member "q" (to build documents whose load has to report missing fields)
+struct InNoQ { std::string t; template <class A> void Serialize(A& a) { a << KeyValue("t", t); } };
+struct ClsNoQ {
+	int64_t a = 1; std::string s; std::vector<int> v; InNoQ in; std::vector<InNoQ> arr; std::map<std::string, int> m; std::optional<std::string> o; std::u16string w; std::unique_ptr<InNoQ> p; double d = 0.5;
+	template <class A> void Serialize(A& ar) { ar << KeyValue("a", a) << KeyValue("s", s) << KeyValue("v", v) << KeyValue("in", in) << KeyValue("arr", arr) << KeyValue("m", m) << KeyValue("o", o) << KeyValue("w", w) << KeyValue("p", p) << KeyValue("d", d); }
+};
 struct Row {
 	std::string a; int n = 5; std::string b; double d = 0;
 	template <class A> void Serialize(A& ar) { ar << KeyValue("a", a) << KeyValue("n", n, Required()) << KeyValue("b", b) << KeyValue("d", d); }
@@ -121,7 +127,7 @@ template <class A, class T, class G> void run_alloc(vf::Ctx& c, int archId, G ge
 	const int medium = static_cast<int>(c.src.draw(3)); const size_t chunk = 1 + c.src.draw(40); const bool sticky = c.src.coin();
 	SerializationOptions opt; const bool utf16 = archId != MSGPACK && medium != 0 && c.src.chance(1, 3); if (utf16 && !loading) { opt.streamOptions.encoding = Convert::Utf::UtfType::Utf16le; }
 	const bool failValidation = loading && archId != CSV && c.src.chance(1, 4);   // a load that also has to report validation errors
-	std::string doc = full; if (failValidation) { if constexpr (std::is_same_v<T, Cls>) { Cls bad = gen_copy(v); bad.in.t = std::string(150, 't'); for (auto& x : bad.arr) x.t = std::string(101, 'u'); doc = save_ref<A>(bad); } }
+	std::string doc = full; if (failValidation) { if constexpr (std::is_same_v<T, Cls>) { ClsNoQ bad; bad.a = v.a; bad.s = v.s; bad.v = v.v; bad.m = v.m; bad.o = v.o; bad.w = v.w; bad.d = v.d; bad.in.t = std::string(150, 't'); for (auto& x : v.arr) { InNoQ y; y.t = x.t.size() % 2 ? std::string(101, 'u') : x.t; bad.arr.push_back(y); } if (v.p) { bad.p = std::make_unique<InNoQ>(); bad.p->t = v.p->t; } doc = save_ref<A>(bad); } }
 	std::string sink; sink.reserve(doc.size() * 4 + 64);
 	auto body = [&](T& target) {
 		if (loading) load_any<A>(target, doc, medium, chunk, opt);
